@@ -364,10 +364,23 @@ def ml_part(chk, tier):
             if name == "json":
                 msgs = [m for m in rgrun.json_matches(so) if m.get("type") == "match"]
                 got = sum(len(m["data"]["submatches"]) for m in msgs)
+                # lines covered by the matches (what standard mode prints): the end message's matched_lines
+                inp = rr.sym_bytes(r["scn"]["inp"])
+                covered, pos = 0, 0
+                while pos < len(inp):
+                    e = inp.find(b"\n", pos)
+                    end = len(inp) if e < 0 else e + 1
+                    if any(a < end and b > pos for a, b in r["ms"]):
+                        covered += 1
+                    pos = end
+                ends = [m for m in rgrun.json_matches(so) if m.get("type") == "end"]
+                ml = sum(m["data"]["stats"]["matched_lines"] for m in ends)
                 if any(not m["data"]["submatches"] for m in msgs):
                     why = {"json_matching_block_without_submatch": True}
                 elif got != want:
                     why = {"json_submatches": got, "matches": want}
+                elif ml != covered:
+                    why = {"json_end_matched_lines": ml, "lines_covered_by_the_matches": covered}
             else:
                 got = int(so.strip() or b"0")
                 if got != want:
